@@ -146,3 +146,74 @@ Lemma like_examples :
   like_match 100 [NAny; NRune 66] (map Good [66; 65]) = Some false /\
   like_match 100 [NAny] [Good 1; Bad] = Some false /\ like_match 100 [] [] = Some true.
 Proof. repeat split; vm_compute; reflexivity. Qed.
+
+(* ---------- patterns with wildcards: the declarative meaning and soundness of the machine ---------- *)
+(* declarative LIKE on rune items: '%' (NAny) any sequence, '_' (NRune with negative order) one rune, a literal one
+   rune of equal weight *)
+Fixpoint dlike (nodes : list node) (s : list item) {struct nodes} : bool :=
+  match nodes with
+  | [] => match s with [] => true | _ => false end
+  | NRune so :: ns =>
+      match s with
+      | Good w :: s' => ((so <? 0) || (w =? so)) && dlike ns s'
+      | _ => false
+      end
+  | NAny :: ns =>
+      (fix any (s : list item) : bool := dlike ns s || match s with [] => false | _ :: s' => any s' end) s
+  end.
+
+Lemma dlike_any ns s :
+  dlike (NAny :: ns) s = dlike ns s || match s with [] => false | _ :: s' => dlike (NAny :: ns) s' end.
+Proof. destruct s; reflexivity. Qed.
+
+Lemma dlike_all_any todo : forallb is_any todo = true -> dlike todo [] = true.
+Proof.
+  induction todo as [|n todo IH]; [reflexivity|]. cbn [forallb]. intros H. apply andb_prop in H. destruct H as [H1 H2].
+  destruct n; [discriminate|]. rewrite dlike_any. rewrite (IH H2). reflexivity.
+Qed.
+
+(* what backtracking can still reach: an earlier '%' taking at least one more rune, everything after it matched afresh *)
+Fixpoint alts (done : list (node * list item)) (todo : list node) : bool :=
+  match done with
+  | [] => false
+  | (n, suf) :: done' =>
+      (is_any n && match suf with [] => false | _ :: suf' => dlike (NAny :: todo) suf' end) || alts done' (n :: todo)
+  end.
+
+Lemma backtrack_sound : forall done todo d t r, backtrack done todo = Some (d, t, r) ->
+  dlike t r || alts d t = true -> alts done todo = true.
+Proof.
+  induction done as [|[n suf] done IH]; intros todo d t r H Hs; [discriminate|].
+  cbn [backtrack] in H. destruct suf as [|[w|] suf']; try discriminate.
+  cbn [alts]. destruct (is_any n) eqn:A.
+  - injection H as <- <- <-. cbn [alts] in Hs. rewrite A in Hs. cbn [andb] in *.
+    rewrite (dlike_any todo suf'). destruct n; [discriminate|].
+    destruct (dlike todo suf'); cbn [orb] in *; [reflexivity|exact Hs].
+  - cbn [andb orb]. eapply IH; eassumption.
+Qed.
+
+Lemma run_sound : forall fuel done todo rest, run fuel done todo rest = Some true ->
+  dlike todo rest || alts done todo = true.
+Proof.
+  induction fuel as [|f IH]; intros done todo rest H; [discriminate|]. cbn [run] in H.
+  destruct todo as [|n todo']; destruct rest as [|x rest'].
+  - reflexivity.
+  - destruct (backtrack done []) as [[[d t] r]|] eqn:B; [|discriminate].
+    apply IH in H. rewrite (backtrack_sound _ _ _ _ _ B H). apply orb_true_r.
+  - injection H as H. rewrite (dlike_all_any (n :: todo') H). reflexivity.
+  - destruct x as [w|]; [|discriminate]. destruct n as [so|].
+    + destruct ((so <? 0) || (w =? so)) eqn:C.
+      * apply IH in H. cbn [alts is_any andb orb] in H. cbn [dlike]. rewrite C. exact H.
+      * destruct (backtrack done (NRune so :: todo')) as [[[d t] r]|] eqn:B; [|discriminate].
+        apply IH in H. rewrite (backtrack_sound _ _ _ _ _ B H). apply orb_true_r.
+    + apply IH in H. cbn [alts is_any andb] in H. rewrite dlike_any.
+      destruct (dlike todo' (Good w :: rest')); cbn [orb] in *; [reflexivity|exact H].
+Qed.
+
+(* the machine never accepts a string that the pattern does not denote, for every weight assignment *)
+Theorem like_match_sound fuel nodes s : like_match fuel nodes s = Some true -> dlike nodes s = true.
+Proof.
+  unfold like_match. destruct nodes as [|n nodes].
+  - destruct s; [reflexivity|discriminate].
+  - intros H. apply run_sound in H. cbn [alts] in H. rewrite orb_false_r in H. exact H.
+Qed.
